@@ -337,3 +337,29 @@ PROPS["C14"] = dict(
     assumptions=SDL_ASSUME,
     design_ref="DESIGN.md section 5 C14",
 )
+
+PROPS["C17"] = dict(
+    pkg="sdl", test="TestC17", engine="sdl", own_loop=True,
+    quick=dict(checks=600, shards=3), thorough=dict(checks=64000, shards=16), timeout=dict(quick=600, thorough=3000),
+    nt_floor=dict(quick=500, thorough=50000),
+    must_classes=["root=reflection", "root=resolver", "root=any", "includeDeprecated=true", "includeDeprecated=false", "includeDeprecated=absent",
+                  "includeDeprecated=var-true", "includeDeprecated=var-false", "deprecated-member", "interface-with->=2-implementers", "wrapper-depth>=3",
+                  "explicit-schema-block", "scalar-default", "non-scalar-default"],
+    level="exploration",
+    technique="model-based differential testing of introspection: the decoded response to a full introspection query is compared with the generated schema model, for three kinds of application resolvers and five ways of passing includeDeprecated",
+    rule="Well-formed schemas of every kind (deep wrappers, deprecations with and without reason on fields and enum values, descriptions,"
+         " explicit or implicit schema block with custom root names, mutation/subscription roots, directive definitions with arguments and"
+         " defaults) are loaded into a root whose application data is served by reflection, by an object implementing ggql.Resolver, or by"
+         " an installed well-behaved AnyResolver; a full introspection query (__schema with types, fields, args, ofType chains 7 deep,"
+         " interfaces, possibleTypes, enumValues, inputFields, directives, root types; __type on an unknown name) is sent with"
+         " includeDeprecated = true / false / absent / variable true / variable false. Oracle: set of user types with kind, name,"
+         " description; per field args (name, type chain, default), type chain, isDeprecated, explicit deprecationReason; interfaces;"
+         " possibleTypes; enum values; input fields; directives with locations and args; root type names; deprecated members present iff"
+         " includeDeprecated is true; unknown type -> null - all compared with the model. evaluations counts (schema, root kind) pairs."
+         " Non-trivial = an interface with >= 2 implementers, wrapper depth >= 3 or a deprecated member.",
+    level_text="Differential search against the generator's own model of the schema.",
+    level_note="Trusted: the model (generator output) and its SDL printer. Not asserted (statement silent): name/description of wrapper types, the"
+               " default deprecation reason text, quoting of string defaults (raw or quoted accepted), [] vs null for empty lists.",
+    assumptions=SDL_ASSUME,
+    design_ref="DESIGN.md section 5 C17",
+)
